@@ -14,6 +14,7 @@ import (
 	"fmt"
 	"io"
 	"net"
+	"sort"
 	"strconv"
 	"strings"
 	"sync"
@@ -67,8 +68,9 @@ type SArgs struct {
 	Text string `json:"Text"`
 }
 type SReply struct {
-	Id int `json:"Id"`
-	C  int `json:"C"`
+	Id   int    `json:"Id"`
+	C    int    `json:"C"`
+	Meta string `json:"Meta,omitempty"` // the request metadata the handler saw (without reserved keys)
 }
 
 // pooled variants (implement server.Reset)
@@ -83,8 +85,9 @@ type PArgs struct {
 func (a *PArgs) Reset() { *a = PArgs{} }
 
 type PReply struct {
-	Id int `json:"Id"`
-	C  int `json:"C"`
+	Id   int    `json:"Id"`
+	C    int    `json:"C"`
+	Meta string `json:"Meta,omitempty"`
 }
 
 func (r *PReply) Reset() { *r = PReply{} }
@@ -157,12 +160,32 @@ func (h *handlerEnv) run2(id, a, b int, mode, text string, log bool) (int, error
 
 type Arith struct{ h *handlerEnv }
 
+// seenMeta: the request metadata visible to a handler, reserved keys removed, canonical order;
+// it also sets one response metadata entry
+func seenMeta(ctx context.Context, id int) string {
+	var parts []string
+	if m, ok := ctx.Value(share.ReqMetaDataKey).(map[string]string); ok {
+		for k, v := range m {
+			if strings.HasPrefix(k, "__") || k == "rid" {
+				continue
+			}
+			parts = append(parts, k+"="+v)
+		}
+	}
+	sort.Strings(parts)
+	if rm, ok := ctx.Value(share.ResMetaDataKey).(map[string]string); ok && rm != nil {
+		rm["resp-id"] = strconv.Itoa(id)
+	}
+	return strings.Join(parts, "&")
+}
+
 func (t *Arith) Mul(ctx context.Context, a *SArgs, r *SReply) error {
 	c, err := t.h.run(a.Id, a.A, a.B, a.Mode, a.Text)
 	if err != nil {
 		return err
 	}
 	r.Id, r.C = a.Id, c
+	r.Meta = seenMeta(ctx, a.Id)
 	return nil
 }
 
